@@ -20,7 +20,33 @@ def general_cases(ctx, n_req, n_res, with_requests=True, res_flags=None):
     a = gen_req.gen_cases(rng, tier)
     rng.shuffle(a)
     b = gen_res.gen_cases(rng, tier, flags=res_flags, with_requests=with_requests, total=n_res)
-    return a[:n_req] + b
+    return a[:n_req] + b + coverage_cases(rng)
+
+
+def coverage_cases(rng):
+    """a few histories for branches that tools/coverage.py showed the generators reached rarely or never (line-ending mixes LF CR CR LF CR LF in a
+    response header block, a folded REQUEST header beyond HTP_MAX_HEADER_FOLDED, several junk lines after a complete request, zero-length data calls
+    on an open stream, chunk-size lines whose continuation arrives as a short all-hex piece)"""
+    out = []
+    rq = b"GET /c HTTP/1.1\r\nHost: a\r\n\r\n"
+    for eol in (b"\n\r\r\n\r\n", b"\n\r\r\n", b"\n\r\r\n\r", b"\n\r\n\r\n", b"\r\r\n\r\n", b"\n\r\r\r\n"):
+        rs = b"HTTP/1.1 200 OK\r\nContent-Length: 2\r\nA: b" + eol + b"hiHTTP/1.1 200 OK\r\nContent-Length: 0\r\n\r\n"
+        for mode in ("whole", "bytes", "random"):
+            ops = ["O", "Q" + rq.hex()] + ["S" + x.hex() for x in sconnp.cut(rs, sconnp.split_points(rs, rng, mode))] + ["C"]
+            out.append(sconnp.case(ops))
+    big = b"GET /f HTTP/1.1\r\nX: start\r\n" + b"".join(b" " + b"f" * 900 + b"\r\n" for _ in range(118)) + b"Host: a\r\n\r\n"
+    ops = ["O"] + ["Q" + big[i:i + 950].hex() for i in range(0, len(big), 950)] + ["C"]
+    out.append(sconnp.case(ops, cfg=sconnp.cfg_str(hard=200000, soft=100000)))
+    for junk in (b"junk one\r\njunk two\r\njunk three\r\n", b"x\ny\nz\n", b"\x00\x01\r\n\r\nGET /n HTTP/1.1\r\n\r\n"):
+        for head in (rq, b"POST /c HTTP/1.1\r\nHost: a\r\nContent-Length: 3\r\n\r\nabc"):
+            st = head + junk
+            for mode in ("whole", "random"):
+                out.append(sconnp.case(["O"] + ["Q" + x.hex() for x in sconnp.cut(st, sconnp.split_points(st, rng, mode))] + ["C"]))
+    out.append(sconnp.case(["O", "Q", "S", "Q" + rq.hex(), "S", "Q", "S" + b"HTTP/1.1 200 OK\r\nContent-Length: 0\r\n\r\n".hex(), "S", "C", "Q", "S"]))
+    for first, rest in ((b"1", b"0\r\n" + b"x" * 16 + b"\r\n0\r\n\r\n"), (b"0", b"00a\r\n0123456789\r\n0\r\n\r\n"), (b"", b"2\r\nab\r\n0\r\n\r\n")):
+        rs = b"HTTP/1.1 200 OK\r\nTransfer-Encoding: chunked\r\n\r\n"
+        out.append(sconnp.case(["O", "Q" + rq.hex(), "S" + (rs + first).hex(), "S" + rest[:3].hex(), "S" + rest[3:].hex(), "C"]))
+    return out
 
 
 def corpus_cases(ctx, chunkings=1):
